@@ -12,6 +12,8 @@ pub mod shapes;
 pub mod tyshape;
 
 #[cfg(kani)]
+pub mod c04;
+#[cfg(kani)]
 pub mod c06;
 #[cfg(kani)]
 pub mod c07;
